@@ -628,6 +628,8 @@ class Engine:
                 if not self.feasible(st, a[0] >= 0): return -a[0]
             return z3.If(a[0] >= 0, a[0], -a[0])
         if name == 'iabs': return z3.If(args[0] >= 0, args[0], -args[0])
+        if name == 'copysign':
+            return z3.If(a[1] >= 0, z3.If(a[0] >= 0, a[0], -a[0]), z3.If(a[0] >= 0, -a[0], a[0]))      # (a negative zero has no counterpart here: A1)
         if name in ('llround', 'lround'):
             # nearest integer, halves away from zero; the value must be representable in the (64-bit) result type
             x_ = a[0]
@@ -945,17 +947,25 @@ class Engine:
                 # summary("Callee", k, args...): the value of the pure callee applied to the k-th lambda of this function (which may
                 # capture only callbacks) and the given scalar arguments -- the term a contract call with that lambda produces
                 if not (isinstance(args[0], Str) and args[0].v and z3.is_int_value(args[1])): raise E2Error('summary("Callee", ordinal, args...) expected')
-                alias = 'lambda:%s:%d' % (self.curkey, args[1].as_long())
+                owner_ = getattr(self, 'clause_owner', None) or self.curkey       # the function whose contract this clause belongs to
+                owner_spec = self.db.funcs.get(owner_) if getattr(self, 'clause_owner', None) else self.cur
+                alias = 'lambda:%s:%d' % (owner_, args[1].as_long())
                 if alias not in self.db.funcs: raise E2Error('summary: no contract for %s' % alias)
                 lf = self.func(alias)
                 lsp = self.db.funcs[alias]
-                parts = [alias.split(':', 1)[1]]
+                parts = [alias.split(':', 1)[1]]; extra_ = []
                 for ct, cn in sorted(lsp.captures, key=lambda c_: c_[1]):
-                    if ct != 'fun': raise E2Error('summary: lambda %s captures a scalar; only callback captures are supported here' % alias)
-                    cbk = (self.cur.callbacks.get(cn) if self.cur is not None else None)
-                    parts.append(cbk['uf'] if cbk else cn)
+                    if ct == 'fun':
+                        cbk = (owner_spec.callbacks.get(cn) if owner_spec is not None else None)
+                        parts.append(cbk['uf'] if cbk else cn)
+                    elif ct in ('real', 'double', 'int', 'uint', 'bool', 'long'):
+                        # a captured scalar is an extra argument of the summary: its value is that of the variable of this name
+                        cv = self.sv(SP.X('name', name=cn), st, bound)
+                        extra_.append(self.to_real(cv) if not z3.is_bool(cv) else z3.If(cv, z3.RealVal(1), z3.RealVal(0)))
+                    else:
+                        raise E2Error('summary: lambda %s captures a %s; only callbacks and scalars are supported here' % (alias, ct))
                 nm = 'pure_%s_%s' % (args[0].v, 'lam<' + '|'.join(parts) + '>')
-                a_ = [self.to_real(v) for v in args[2:]]
+                a_ = [self.to_real(v) for v in args[2:]] + extra_
                 return self.uf(nm, *([z3.RealSort()] * (len(a_) + 1)))(*a_)
             if n == 'trunc':      # conversion double -> int as in C++ (towards zero), same term as the translated cast
                 v = self.to_real(args[0])
@@ -1293,9 +1303,14 @@ class Engine:
             u = self.uf('pure_%s_%s' % (f.name, cbn + ''.join(strtags)), *([z3.RealSort()] * len(args) + [res.sort()]))
             cs.assume(res == u(*args))
         n_pc0 = len(cs.pc)
-        for cl in sp.ensures:
-            if cl.engines and 'E2' not in cl.engines: continue
-            self.assume_clause(cl.expr, cs)
+        keep_owner = getattr(self, 'clause_owner', None)
+        self.clause_owner = sp.key.split('~')[0]
+        try:
+            for cl in sp.ensures:
+                if cl.engines and 'E2' not in cl.engines: continue
+                self.assume_clause(cl.expr, cs)
+        finally:
+            self.clause_owner = keep_owner
         # postconditions that mention ghost parameters hold for every value of them (the callee's proof treats them as
         # arbitrary): a ghost call may ask for several instances
         for gs in (ghost_sets or [])[1:]:
@@ -1592,7 +1607,9 @@ class Engine:
         f = self.func(op)
         env = {}
         for (pn, pt, br), v in zip(f.params, args): env[pn] = v
-        for nm, v in caps.items(): env['$' + nm] = v
+        for nm, v in caps.items():
+            env['$' + nm] = v
+            if nm == 'this': env['self'] = st.env.get('self', v)      # [this] is a pointer: the lambda sees the object's current state
         fake = IR.E('call', f.ret, fn=op, kind='user', args=[], name='lambda', method=False, ret_ref=False)
         return self.inline_call(fake, f, self.cur, st, ctor_self=None) if False else self._inline_env(f, env, st)
 
